@@ -427,9 +427,9 @@ func (g *tgen) field(depth, pos int) *tfield {
 
 // genType builds one top-level struct type.
 func genType(r *rand.Rand) *tnode {
-	g := &tgen{r: r, budget: 7 + r.Intn(8)}
+	g := &tgen{r: r, budget: 8 + r.Intn(12)}
 	n := &tnode{k: kStruct}
-	nf := 2 + r.Intn(4)
+	nf := 2 + r.Intn(5)
 	for i := 0; i < nf; i++ {
 		g.budget--
 		n.fields = append(n.fields, g.field(0, i))
